@@ -496,6 +496,8 @@ def saturation(ctx, mod):
     lk = lambda n: mod.functions.get(n)
     E7 = (-1074, -600, -20, 0, 20, 600, 1023)
     E5 = (-1074, -20, 0, 20, 1023)
+    if ctx.tier == 'thorough':
+        E5, E7 = E7, (-1074, -1022, -600, -100, -20, -1, 0, 1, 20, 100, 600, 1022, 1023)
     def doms(E):
         nz = [mag.binade(e, s_) for e in E for s_ in (1, -1)]
         return dict(any=nz + [mag.Z], nz=nz, pos=[mag.binade(e) for e in E])
